@@ -12,7 +12,7 @@ PROP = "C06"
 LEVEL = "exploration"
 BUDGET = {"quick": 60, "thorough": 900}
 MIN_BUDGET = {"quick": 25, "thorough": 120}
-RULE = ("one collector process x 1-2 writer processes; writers run long transactions (append_data, hold 0-3 h of "
+RULE = ("one collector process x 1-2 writer processes; writers run long transactions (append_data, or append_files of a pre-built file 0 / 2 h old; hold 0-3 h of "
         "virtual time, then commit; two writers conflict and retry; some roll back; some delete a file so manifests "
         "are rewritten); the collector wakes within a few (virtual) milliseconds of a writer's commit and collects with "
         "grace in {10 s, 1 h}; scheduler random/PCT plus targeted holds that park the collector at each phase "
@@ -24,7 +24,8 @@ RULE = ("one collector process x 1-2 writer processes; writers run long transact
         "of write/lock/pointer/delete events; non-trivial = a pointer flip happened between the collector's first "
         "and last storage call.")
 ASSUMPTIONS = common.BASE_ASSUMPTIONS + [
-    "scope: files written by the transaction (marker-registered); pre-built files handed to append_files carry no marker by design",
+    "a pre-built file is in scope from the moment append_files() has returned (it is then 'registered by a live transaction'); "
+    "before that it is an ordinary unreferenced file",
     "writers never expire snapshots here, so reachability only grows and the final metadata is the reference",
 ]
 COMPONENTS = common.COMPONENTS
@@ -47,7 +48,12 @@ def gen(rng: random.Random, tier: str, idx: int) -> dict:
         for j in range(rng.randint(1, 2)):
             r = rng.random()
             g = gap if j == 0 else rng.choice([0.0, 20.0])
-            if r < 0.7:
+            if r < 0.2:
+                # a pre-built file handed over with append_files: already older than the grace period (or fresh) when it
+                # is registered, then the transaction stays open for g
+                ops.append({"kind": "files_append", "tag": f"w{i}.{j}", "n": 1, "age": rng.choice([0.0, 7200.0, 7200.0]),
+                            "gap": g, "rollback": rng.random() < 0.1})
+            elif r < 0.7:
                 ops.append({"kind": "long_append", "tag": f"w{i}.{j}", "n": 1, "gap": g, "rollback": rng.random() < 0.15})
             elif r < 0.85:
                 ops.append({"kind": "multi", "tag": f"w{i}.{j}", "n": 1, "style": "explicit", "gap": g})
@@ -79,6 +85,25 @@ def gen(rng: random.Random, tier: str, idx: int) -> dict:
     if rng.random() < 0.4:
         setup += [{"kind": "delete_file", "tag": "sd", "k": 0, "with_append": True}, {"kind": "sleep", "dt": 7200.0}]
     return {"backend": backend, "setup": setup, "actors": actors, "policy": pol, "grace_ms": grace_ms, "faults": []}
+
+
+def prebuilt_cause(sim, path: str) -> str:
+    """For a pre-built file (append_files) that the collector removed: was its in-flight marker written before or after the
+    collector's marker listing of the run that removed it?  ('before' means the protection was in force and ignored.)"""
+    b = path.rsplit("/", 1)[-1]
+    reg = [g for (g, _vt, a, op, t, o) in sim.log
+           if op in ("replace", "put") and o == "ok" and t.endswith(f"inflight/{b}.inflight")]
+    dele = [g for (g, _vt, a, op, t, o) in sim.log
+            if a.startswith("gc") and op in ("remove", "delete") and o == "ok" and t.lstrip("/") == path.lstrip("/")]
+    if not dele:
+        return "not_deleted_by_collector"
+    if not reg:
+        return "never_registered"
+    lists = [g for (g, _vt, a, op, t, o) in sim.log
+             if a.startswith("gc") and g < dele[0] and t.rstrip("/") == "metadata/inflight"]
+    if not lists or reg[0] < max(lists):
+        return "marker_before_marker_read"
+    return "marker_after_marker_read"
 
 
 def shrink(plan: dict):
@@ -138,7 +163,8 @@ def execute(plan: dict, scratch: str, replay: Optional[dict] = None) -> dict:
                 st = None
                 V.append({"clause": "G.final_unreadable",
                           "msg": f"[{cfg}] a file of a snapshot in the final metadata is missing/unreadable: {e}",
-                          "sig": f"G.final_unreadable|{backend}|{e.kind}"})
+                          "sig": (f"G.final_unreadable|{backend}|{e.kind}" if "/pre_" not in e.path else
+                                  "G.final_unreadable|prebuilt|" + prebuilt_cause(sim, e.path))})
                 try:
                     st = w.state(deep=True, rows=False)
                 except ir.IRError:
@@ -150,7 +176,9 @@ def execute(plan: dict, scratch: str, replay: Optional[dict] = None) -> dict:
                 if hit:
                     V.append({"clause": "G.deleted_committed",
                               "msg": f"[{cfg}] the collector deleted {sorted(hit)[:2]} which the final metadata references",
-                              "sig": f"G.deleted_committed|{backend}|{world.seams.classify_rel(sorted(hit)[0])}"})
+                              "sig": (f"G.deleted_committed|{backend}|{world.seams.classify_rel(sorted(hit)[0])}"
+                                      if "/pre_" not in sorted(hit)[0] else
+                                      "G.deleted_committed|prebuilt|" + prebuilt_cause(sim, sorted(hit)[0]))})
                 for s in st.snaps:
                     for p in s.files:
                         try:
@@ -160,12 +188,15 @@ def execute(plan: dict, scratch: str, replay: Optional[dict] = None) -> dict:
                         except Exception:
                             pass
             for rec in w.history:
+                if rec["op"]["kind"] == "files_append" and not rec.get("resolved", {}).get("registered"):
+                    continue   # not yet handed to a transaction: an old unreferenced file is a legitimate orphan
                 if rec["actor"].startswith("w") and rec["outcome"] == "raise" and rec.get("exc") in (
                         "FileNotFoundError",) and rec["op"].get("gap", 0) < 86000:
                     V.append({"clause": "G.inflight_deleted",
                               "msg": f"[{cfg}] {rec['actor']} {rec['op']['kind']} failed because its uncommitted file vanished: "
                                      f"{(rec.get('msg') or '')[:160]}",
-                              "sig": f"G.inflight_deleted|{backend}"})
+                              "sig": (f"G.inflight_deleted|{backend}" if rec["op"]["kind"] != "files_append" else
+                                      "G.inflight_deleted|prebuilt|" + prebuilt_cause(sim, rec["resolved"]["staged"]))})
     elif sim.outcome == "deadlock":
         V.append({"clause": "L.deadlock", "msg": "actors blocked forever"})
     res = common.assemble(ph, V, overlapped, cfg, common.trace_sample(ph, plan))
